@@ -67,6 +67,8 @@ impl HeapHandle {
     /// RecomputeHeap::insert by the membership part of its own debug assertion
     #[verifier::external_body]
     pub fn insert(&self, node: NodeRef) requires node_necessary(&*node) && !node_in_heap(&*node) { unimplemented!() }
+    #[verifier::external_body]
+    pub fn insert__reached(&self, node: NodeRef) requires node_necessary(&*node) && !node_in_heap(&*node) ensures false { unimplemented!() }
 }
 impl State {
     #[verifier::external_body]
@@ -385,6 +387,35 @@ spec fn edges_indexed(e: &ExpertNode) -> bool {
 }
 
 impl Node {
+//@extract fn Node::expert_make_stale
+//@ file: src/node.rs
+//@ impl: impl ErasedNode for Node
+//@ name: expert_make_stale
+//@ as: fn expert_make_stale(&self, expert: &mut ExpertNode)
+//@ rule R5p re: `let Some\(Kind::Expert\(expert\)\) = self\.kind\(\) else \{\s*return;\s*\};` => `` x1
+//@ rule R8: `t.recompute_heap.insert(` => `t.heap().insert(` x*
+//@ props: C14
+//@ contract:
+//@|     ensures
+//@|         node_valid(self) ==> final(expert).latches() == l_make_stale(old(expert).latches()), // [a-valid-expert-node-is-forced-stale]
+//@|         !node_valid(self) ==> final(expert).latches() == old(expert).latches(), // [an-invalid-one-is-left-alone]
+//@|         final(expert).children@ == old(expert).children@, // [frame]
+//@end
+
+//@extract fn Node::expert_make_stale!must_queue
+//@ file: src/node.rs
+//@ impl: impl ErasedNode for Node
+//@ name: expert_make_stale
+//@ as: fn expert_make_stale__a_needed_node_that_was_not_forced_yet_is_queued(&self, expert: &mut ExpertNode)
+//@ panics: diverge
+//@ rule R5p re: `let Some\(Kind::Expert\(expert\)\) = self\.kind\(\) else \{\s*return;\s*\};` => `` x1
+//@ rule R8: `t.recompute_heap.insert(` => `t.heap().insert__reached(` x*
+//@ props: C14
+//@ contract:
+//@|     requires node_valid(self), !old(expert).force_stale, node_necessary(self), !node_in_heap(self),
+//@|     ensures false, // [make_stale-on-a-needed-node-that-is-not-queued-always-queues-it-for-one-recompute]
+//@end
+
 //@extract fn Node::expert_add_dependency
 //@ file: src/node.rs
 //@ impl: impl ErasedNode for Node
